@@ -17,9 +17,11 @@ import (
 	"math/rand"
 	"os"
 	"reflect"
+	"runtime"
 	"sort"
 	"strings"
 	"sync"
+	"sync/atomic"
 	"time"
 
 	"gorm.io/gorm/logger"
@@ -28,6 +30,7 @@ import (
 
 func init() {
 	register("C07", c07Sched)
+	register("C07", c07Stampede)
 	register("C07", c07RaceParent)
 	register("C07race", c07RaceChild)
 	replayers["C07/sched"] = func(r *Result, input json.RawMessage) {
@@ -38,6 +41,13 @@ func init() {
 		c07SchedBatch(r, []c07ScCase{c}, true)
 	}
 	replayers["C07/sched-static"] = func(r *Result, input json.RawMessage) { c07CheckStaticCfg(r) }
+	replayers["C07/stampede"] = func(r *Result, input json.RawMessage) {
+		var c c07StampedeCase
+		if json.Unmarshal(input, &c) == nil && c.Type < len(c07ScTypes) {
+			c.Reps *= 4
+			c07StampedeRun(r, c)
+		}
+	}
 	replayers["C07/race"] = c07RaceReplay
 	replayers["C07/race-single-winner"] = c07RaceReplay
 }
@@ -134,6 +144,9 @@ func c07Sched(r *Result, rng *rand.Rand, tier string) {
 		if expired() {
 			break
 		}
+		if c07SchedMismatches >= 5 {
+			break
+		}
 		if time.Now().After(stopAt) {
 			r.Note("sched: wall-time bound reached after %d of %d generated schedules (machine load)", i, len(cases))
 			break
@@ -216,6 +229,9 @@ func c07CheckStaticCfg(r *Result) {
 	}
 }
 
+// mismatches seen by the sched suite in this process: every one costs a goroutine-state timeout, five replays are enough
+var c07SchedMismatches = 0
+
 func c07SchedBatch(r *Result, cases []c07ScCase, replay bool) {
 	ops := make([][]interface{}, len(cases))
 	cfg := c07ScCfgJSON()
@@ -227,9 +243,8 @@ func c07SchedBatch(r *Result, cases []c07ScCase, replay bool) {
 		r.Violate(Violation{Kind: "correspondence", Suite: "sched", Input: "batch", Observed: err.Error(), Expected: "lean driver answers"})
 		return
 	}
-	mismatches := 0
 	for i, c := range cases {
-		if mismatches >= 5 || expired() {
+		if c07SchedMismatches >= 5 || expired() {
 			// every mismatch costs a goroutine-state timeout; five replays are enough to report
 			break
 		}
@@ -290,7 +305,7 @@ func c07SchedBatch(r *Result, cases []c07ScCase, replay bool) {
 		r.CorrCompared++
 		r.Case("sched", canon(c), contended)
 		if canon(obs) != canon(exp) {
-			mismatches++
+			c07SchedMismatches++
 			r.Violate(Violation{Kind: "correspondence", Suite: "sched", Input: c, Observed: obs, Expected: exp,
 				Note: "schema-cache protocol: real code and Model.SchemaCache differ under a forced schedule"})
 			// independent judgement of the property on this input (e2e): pointer uniqueness and completeness
@@ -598,4 +613,76 @@ func c07ScRunReal(c c07ScCase, steps []c07ScStep) (map[string]interface{}, strin
 		objs = append(objs, []interface{}{tyIdx[p.ModelType.Name()], n, backs, errOf[p]})
 	}
 	return map[string]interface{}{"rets": rets, "objs": objs, "cache": cacheOut}, "ok"
+}
+
+// ---- suite "stampede": single winner under REAL concurrency (no forced schedule) ----
+//
+// G goroutines leave a spin barrier together and call schema.Parse on the same model type with a fresh cacheStore;
+// all must receive the same *schema.Schema (Gorm.C07_cache_single_winner).  The forced-schedule suite cannot place a
+// goroutine between two adjacent statements of ParseWithSpecialTableName; this one samples exactly those interleavings.
+
+type c07StampedeCase struct {
+	Type int `json:"type"`
+	G    int `json:"g"`
+	Reps int `json:"reps"`
+}
+
+func c07Stampede(r *Result, rng *rand.Rand, tier string) {
+	if o := c07Only(); o != "" && o != "stampede" {
+		return
+	}
+	logger.Default = logger.Discard
+	reps := 1500
+	if tier == "thorough" {
+		reps = 20000
+	}
+	g := runtime.NumCPU() - 2
+	if g > 12 {
+		g = 12
+	}
+	if g < 2 {
+		g = 2
+	}
+	for _, ty := range []int{7, 0, 5, 2} {
+		c07StampedeRun(r, c07StampedeCase{Type: ty, G: g, Reps: reps})
+	}
+}
+
+func c07StampedeRun(r *Result, c c07StampedeCase) {
+	namer := schema.NamingStrategy{}
+	bad := 0
+	for rep := 0; rep < c.Reps && bad == 0; rep++ {
+		cache := &sync.Map{}
+		ptrs := make([]*schema.Schema, c.G)
+		var ready int32
+		var wg sync.WaitGroup
+		for t := 0; t < c.G; t++ {
+			wg.Add(1)
+			go func(t int) {
+				defer wg.Done()
+				v := c07ScTypes[c.Type]()
+				atomic.AddInt32(&ready, 1)
+				for atomic.LoadInt32(&ready) < int32(c.G) {
+					runtime.Gosched()
+				}
+				s, _ := schema.Parse(v, cache, namer)
+				ptrs[t] = s
+			}(t)
+		}
+		wg.Wait()
+		r.CorrCompared++
+		for t := 1; t < c.G; t++ {
+			if ptrs[t] != ptrs[0] {
+				bad++
+				r.Violate(Violation{Kind: "correspondence", Suite: "stampede", Input: c,
+					Observed: fmt.Sprintf("repetition %d: goroutine 0 received %p, goroutine %d received %p for %s", rep, ptrs[0], t, ptrs[t], c07ScTypeNames[c.Type]),
+					Expected: "one *schema.Schema per model type for all callers (Gorm.C07_cache_single_winner)",
+					Note:     "schema-cache protocol under real concurrency: two winners"})
+				break
+			}
+		}
+	}
+	r.Case("stampede", canon(c), true)
+	r.H("stampede.type", c07ScTypeNames[c.Type])
+	r.H("stampede.G", fmt.Sprint(c.G))
 }
